@@ -54,10 +54,23 @@ func runC18(r *Run, rng *rand.Rand, thorough bool) {
 	if thorough {
 		n = 120
 	}
-	for i := 0; i < n; i++ {
+	// parents whose X coordinate has leading zero bytes (the SEC1 encoding must still be 33 bytes)
+	var shortX []*crypto.ECPoint
+	for u := int64(1); len(shortX) < 3 && u < 5000; u++ {
+		if pt := crypto.ScalarBaseMult(S, bi(u+int64(rng.Intn(3)))); pt.X().BitLen() <= 248 {
+			shortX = append(shortX, pt)
+		}
+	}
+	for i := 0; i < n+len(shortX); i++ {
 		parent := crypto.ScalarBaseMult(S, new(big.Int).Add(below(rng, new(big.Int).Sub(q, bi(2))), bi(1)))
+		if i >= n {
+			parent = shortX[i-n]
+		}
 		cc := randBytes(rng, 32)
 		plen := i % 6
+		if i >= n {
+			plen = 1 + i%3
+		}
 		path := make([]string, plen)
 		var p32 []uint32
 		hardened := false
@@ -77,10 +90,17 @@ func runC18(r *Run, rng *rand.Rand, thorough bool) {
 			ps = strings.Join(path, ",")
 		}
 		depth := 0
-		if i%7 == 3 {
+		if i >= n {
+			hardened = false
+			for j := range p32 {
+				p32[j] = uint32(rng.Int31n(1 << 20))
+				path[j] = fmt.Sprint(p32[j])
+			}
+			ps = strings.Join(path, ",")
+		} else if i%7 == 3 {
 			depth = 254
 		}
-		if i%7 == 5 {
+		if i < n && i%7 == 5 {
 			depth = 255
 		}
 		g, _, _ := r.Do("ckd.DeriveChildKeyFromHierarchy", true, "ckd_derive", ePoint(parent), fmt.Sprint(depth), eBytes(cc), ps)
